@@ -748,6 +748,7 @@ def execMon (cfg : Cfg) : Nat → Nat → Nat → Int → RSt → R (Sig × RSt)
         | y :: r => do
             let (zs, σ2) ← lazyErr (scanFn cfg n (.fn id) y r σ1)
             .ok (.normal, σ2.push (.list zs))
+    else if m = 8332 ∨ m = 8333 then .error (.unmodelled "dyadic modifier with one operand")   -- (the parser never builds this)
     else .ok (.normal, σ)
 termination_by n _ _ _ _ => (n, 5, 0)
 
@@ -771,6 +772,8 @@ def execDy (cfg : Cfg) : Nat → Nat → Nat → Int → Nat → Int → RSt →
       let (rA, σ2) ← applyFn cfg n (.fn idA) argsA.reverse σ1
       let (rB, σ3) ← applyFn cfg n (.fn idB) argsB.reverse σ2
       if m = 8332 then .ok (.normal, (σ3.push rA).push rB) else .ok (.normal, σ3.push (.list [rA, rB]))
+    else if m = 38 ∨ m = 118 ∨ m = 126 ∨ m = 223 ∨ m = 402 ∨ m = 598 then
+      .error (.unmodelled "monadic modifier with two operands")   -- (the parser never builds this)
     else .ok (.normal, σ)
 termination_by n _ _ _ _ _ _ => (n, 5, 0)
 end
